@@ -16,6 +16,7 @@ import (
 	"github.com/pion/dtls/v3/pkg/crypto/prf"
 	"github.com/pion/dtls/v3/pkg/protocol"
 	"github.com/pion/dtls/v3/pkg/protocol/handshake"
+	"github.com/pion/dtls/v3/pkg/protocol/recordlayer"
 )
 
 // State holds the dtls connection state and implements both encoding.BinaryMarshaler and
@@ -246,6 +247,11 @@ func (s *State) generateInternalState() (*dtlsstate.State, error) {
 	}
 	if s.version.Equal(protocol.Version1_3) {
 		return nil, ErrStateSerializationUnsupported
+	}
+	if s.sequenceNumber > recordlayer.MaxSequenceNumber+1 {
+		// Not a number a connection can have reached: counting on from it
+		// would wrap and reuse record numbers.
+		return nil, dtlserrors.ErrSequenceNumberOverflow
 	}
 	if s.localEpoch == 0 || len(s.masterSecret) == 0 {
 		// A state captured before the handshake switched to its keys (the one
